@@ -259,6 +259,9 @@ pub fn search(st: &State, ev: &Evaluator, cfg: &Cfg, cancel: &Cancel, artifact: 
             StatusEvent::BestMove { line, evaluation } => lines.push((line, evaluation)),
             StatusEvent::Progress { depth, nodes_searched, transposition_saturation } => progress.push((depth, nodes_searched, transposition_saturation)),
             StatusEvent::Warning { .. } => warnings += 1,
+            // event kinds added to the engine later are none of the harness's business (a wildcard keeps it building)
+            #[allow(unreachable_patterns)]
+            _ => {}
         })
     });
     match r {
